@@ -133,6 +133,17 @@ fn lvl(name: &str, skeletons: Vec<model::Skeleton>, dev1: &[&str], dev2: &[&str]
 }
 
 /// The standard full-model levels (C01, C03, C04, C11 and, restricted by `admits`, C06/C09/C10).
+/// `full_levels` without the quick-tier levels whose names start with one of `skip`: the targeted
+/// levels stay with the property whose defects they were built for (DESIGN §8.1), so that every
+/// quick tier finishes below its wall cap. The thorough tier always runs all of them.
+fn full_levels_without(m: &Model, thorough: bool, forms1: &[&str], forms_k2: &[&str], forms2: &[&str], skip: &[&str]) -> Vec<Level> {
+    let v = full_levels(m, thorough, forms1, forms_k2, forms2);
+    if thorough {
+        return v;
+    }
+    v.into_iter().filter(|l| !skip.iter().any(|s| l.name.starts_with(s))).collect()
+}
+
 fn full_levels(m: &Model, thorough: bool, forms1: &[&str], forms_k2: &[&str], forms2: &[&str]) -> Vec<Level> {
     let all = all_ctx();
     let mut v = vec![
@@ -267,7 +278,14 @@ fn plan_for(id: &str, thorough: bool) -> Option<Plan> {
     let p = match id {
         "C01" => Plan {
             oracle: Box::new(oracles::tree::C01),
-            levels: full_levels(&m, thorough, model::FORMS_ALL, model::FORMS_QUICK, &["nl", "bc", "lc", "sp", "none"]),
+            levels: full_levels_without(
+                &m,
+                thorough,
+                model::FORMS_ALL,
+                model::FORMS_QUICK,
+                &["nl", "bc", "lc", "sp", "none"],
+                &["let/k2/dev1", "arg/named", "ctx*/k<=1/mid+tail"],
+            ),
             extra: vec![
                 ExtraLevel { name: "whitespace spellings (mixed newline styles, long runs)".into(), inputs: families::ws_spellings() },
                 prose_extra(thorough),
@@ -327,7 +345,7 @@ fn plan_for(id: &str, thorough: bool) -> Option<Plan> {
         },
         "C04" => Plan {
             oracle: Box::new(oracles::basic::C04),
-            levels: full_levels(&m, thorough, model::FORMS_ALL, model::FORMS_QUICK, &["lc", "bc", "nl", "none"]),
+            levels: full_levels_without(&m, thorough, model::FORMS_ALL, model::FORMS_QUICK, &["lc", "bc", "nl", "none"], &["codeblock,let,arg/chains", "ctx*/k<=1/mid+tail", "let,arg,codeblock/decorated"]),
             extra: vec![prose_extra(thorough)],
             policy: std_policy(sparse),
             assumptions: vec![two_uses, wrapper],
@@ -339,7 +357,11 @@ fn plan_for(id: &str, thorough: bool) -> Option<Plan> {
                 let all = all_ctx();
                 let mut v = vec![
                     lvl("ctx*/k<=1/1 comment", sweep::skeletons(&m, &all, &[0, 1], &[Size::Short, Size::Medium]), model::FORMS_COMMENT, &[]),
-                    lvl("hash,let,math/k2/1 comment", sweep::skeletons(&m, &["hash", "let", "math_i"], &[2], &[Size::Short]), &["bc", "lc"], &[]),
+                    if thorough {
+                        lvl("hash,let,math/k2/1 comment", sweep::skeletons(&m, &["hash", "let", "math_i"], &[2], &[Size::Short]), &["bc", "lc"], &[])
+                    } else {
+                        lvl("let/k2/1 comment", sweep::skeletons(&m, &["let"], &[2], &[Size::Short]), &["bc", "lc"], &[])
+                    },
                 ];
                 if thorough {
                     v.push(lvl("main/k2/1 comment", sweep::skeletons(&m, &MAIN_CTX, &[2], &[Size::Short]), &["bc", "lc", "nl_lc", "bc_ml", "bc_sp"], &[]));
@@ -372,7 +394,14 @@ fn plan_for(id: &str, thorough: bool) -> Option<Plan> {
             oracle: Box::new(oracles::ws::C08),
             levels: {
                 let mk = ["doc", "item", "content_ml", "heading", "strong", "mixed"];
-                let mut v = vec![lvl("markup ctx/k<=2/dev<=1", sweep::skeletons(&m, &mk, &[1, 2], &[Size::Short]), &model::FORMS_QUICK[..if thorough { 12 } else { 7 }], &[])];
+                let mut v = if thorough {
+                    vec![lvl("markup ctx/k<=2/dev<=1", sweep::skeletons(&m, &mk, &[1, 2], &[Size::Short]), model::FORMS_QUICK, &[])]
+                } else {
+                    vec![
+                        lvl("markup ctx/k<=1/dev<=1", sweep::skeletons(&m, &mk, &[1], &[Size::Short]), &model::FORMS_QUICK[..7], &[]),
+                        lvl("markup ctx/k2/dev<=1 (line feed, none, line comment)", sweep::skeletons(&m, &mk, &[2], &[Size::Short]), &["nl", "none", "lc"], &[]),
+                    ]
+                };
                 if thorough {
                     v.push(lvl("markup ctx/k<=2/all forms", sweep::skeletons(&m, &mk, &[1, 2], &[Size::Short, Size::Medium]), model::FORMS_ALL, &[]));
                     v.push(lvl("markup ctx/k3/dev0", sweep::skeletons(&m, &["doc", "content_ml", "item"], &[3], &[Size::Short]), &[], &[]));
@@ -391,7 +420,14 @@ fn plan_for(id: &str, thorough: bool) -> Option<Plan> {
             oracle: Box::new(oracles::ws::C09),
             levels: {
                 let mk = ["math_i", "math_b", "math_hash", "let", "arg", "doc"];
-                let mut v = vec![lvl("math ctx/k<=2/dev<=1", sweep::skeletons(&m, &mk, &[1, 2], &[Size::Short]), &model::FORMS_QUICK[..if thorough { 12 } else { 7 }], &[])];
+                let mut v = if thorough {
+                    vec![lvl("math ctx/k<=2/dev<=1", sweep::skeletons(&m, &mk, &[1, 2], &[Size::Short]), model::FORMS_QUICK, &[])]
+                } else {
+                    vec![
+                        lvl("math ctx/k<=1/dev<=1", sweep::skeletons(&m, &mk, &[1], &[Size::Short]), &model::FORMS_QUICK[..7], &[]),
+                        lvl("math ctx/k2/dev<=1 (line feed, none, block comment)", sweep::skeletons(&m, &mk, &[2], &[Size::Short]), &["nl", "none", "bc"], &[]),
+                    ]
+                };
                 if thorough {
                     v.push(lvl("math ctx/k<=2/all forms", sweep::skeletons(&m, &mk, &[1, 2], &[Size::Short, Size::Medium]), model::FORMS_ALL, &[]));
                     v.push(lvl("math ctx/k3/dev0", sweep::skeletons(&m, &["math_i", "math_b"], &[3], &[Size::Short]), &[], &[]));
@@ -424,7 +460,14 @@ fn plan_for(id: &str, thorough: bool) -> Option<Plan> {
         }
         "C11" => Plan {
             oracle: Box::new(oracles::basic::C11),
-            levels: full_levels(&m, thorough, model::FORMS_ALL, model::FORMS_QUICK, &["sp", "tab", "nl", "bc_sp", "lc_sp"]),
+            levels: full_levels_without(
+                &m,
+                thorough,
+                model::FORMS_ALL,
+                model::FORMS_QUICK,
+                &["sp", "tab", "nl", "bc_sp", "lc_sp"],
+                &["let/k2/dev1", "arg/named", "codeblock,let,arg/chains", "let,arg,codeblock/decorated", "ctx*/k<=1/mid+tail"],
+            ),
             extra: vec![
                 ExtraLevel { name: "degenerate documents".into(), inputs: families::degenerate() },
                 ExtraLevel { name: "line ends inside verbatim text: carriers x blank characters x LF/CRLF/CR/mixed x clean/dirty remainder".into(), inputs: families::line_ends() },
@@ -442,7 +485,11 @@ fn plan_for(id: &str, thorough: bool) -> Option<Plan> {
                 let mut v = vec![
                     lvl("ctx*/k<=1/linefeed dev<=1", sweep::skeletons(&m, &all, &[0, 1], &[Size::Short]), &lf, &[]),
                     lvl("main/k2/dev0", sweep::skeletons(&m, &MAIN_CTX, &[2], &[Size::Short]), &[], &[]),
-                    lvl("hash,let/k2/nl", sweep::skeletons(&m, &["hash", "let"], &[2], &[Size::Short]), &["nl"], &[]),
+                    if thorough {
+                        lvl("hash,let/k2/nl", sweep::skeletons(&m, &["hash", "let"], &[2], &[Size::Short]), &["nl"], &[])
+                    } else {
+                        lvl("let/k2/nl", sweep::skeletons(&m, &["let"], &[2], &[Size::Short]), &["nl"], &[])
+                    },
                 ];
                 if thorough {
                     v.push(lvl("main/k2/linefeed dev<=1", sweep::skeletons(&m, &MAIN_CTX, &[2], &[Size::Short]), &["nl", "lc", "bc_ml"], &[]));
@@ -454,7 +501,7 @@ fn plan_for(id: &str, thorough: bool) -> Option<Plan> {
             },
             extra: vec![],
             policy: CfgPolicy {
-                widths: Widths::HugeThenAll { cap: if thorough { 200 } else { 90 } },
+                widths: Widths::HugeThenAll { cap: if thorough { 200 } else { 60 } },
                 tabs_full: vec![1, 2, 3, 4, 5, 6, 7, 8],
                 tabs_sparse: vec![3, 5, 7],
                 reorder: vec![false],
@@ -464,7 +511,7 @@ fn plan_for(id: &str, thorough: bool) -> Option<Plan> {
         },
         "C13" => {
             let all = all_ctx();
-            let mut levels = vec![lvl("ctx*/k<=1/dev<=1", sweep::skeletons(&m, &all, &[0, 1], &[Size::Short]), model::FORMS_QUICK, &[])];
+            let mut levels = vec![lvl("ctx*/k<=1/dev<=1", sweep::skeletons(&m, &all, &[0, 1], &[Size::Short]), if thorough { model::FORMS_QUICK } else { &model::FORMS_QUICK[..6] }, &[])];
             if thorough {
                 levels.push(lvl("ctx*/k<=1/all forms", sweep::skeletons(&m, &all, &[0, 1], &[Size::Short]), model::FORMS_ALL, &[]));
                 levels.push(lvl("main/k2/dev0", sweep::skeletons(&m, &MAIN_CTX, &[2], &[Size::Short]), &[], &[]));
@@ -480,8 +527,8 @@ fn plan_for(id: &str, thorough: bool) -> Option<Plan> {
                     let c = t[i..].chars().next().unwrap();
                     let end = i + c.len_utf8();
                     damaged.push((format!("damage:delete@{n}:{d}"), format!("{}{}", &t[..i], &t[end..])));
-                    damaged.push((format!("damage:dup@{n}:{d}"), format!("{}{}{}", &t[..end], c, &t[end..])));
                     if thorough {
+                        damaged.push((format!("damage:dup@{n}:{d}"), format!("{}{}{}", &t[..end], c, &t[end..])));
                         for r in ['(', ')', '[', ']', '{', '}', '$', '"', '#', '*'] {
                             damaged.push((format!("damage:replace:{r}@{n}:{d}"), format!("{}{}{}", &t[..i], r, &t[end..])));
                         }
@@ -493,7 +540,7 @@ fn plan_for(id: &str, thorough: bool) -> Option<Plan> {
             Plan {
                 oracle: Box::new(oracles::range::C13),
                 levels,
-                extra: vec![ExtraLevel { name: "single-character damages".into(), inputs: damaged }],
+                extra: vec![ExtraLevel { name: if thorough { "single-character damages (delete, duplicate, replace)".into() } else { "single-character damages (delete)".into() }, inputs: damaged }],
                 policy: CfgPolicy { widths: Widths::Fixed(vec![80, 0]), tabs_full: vec![2], tabs_sparse: if thorough { vec![4] } else { vec![] }, reorder: vec![false] },
                 assumptions: vec![
                     "format_source_range is called on Source::new(fixed FileId, text); one Source per (input, configuration)".into(),
